@@ -19,9 +19,16 @@ RULE = ('program = shipped Integrator x shipped IntegratorStep it can drive '
         '(every stage method called by one_timestep is defined by a stepper, '
         'number of equation sets matches), or user-defined integrators '
         '(1-5 stages, py_stage hooks, update_nnps=False, two equation sets, '
-        'out-of-order stages) with different steppers per array, with or '
+        'out-of-order stages, control flow / locals / docstring / keyword '
+        'calls in one_timestep, an inherited one_timestep, three equation '
+        'sets, sets given as plain equation lists, stepper instances with '
+        'constructor arguments, a py_stage hook without a stage method, an '
+        'array without a stepper, OpenMP builds with 150-230 particles) '
+        'with different steppers per array, with or '
         'without a periodic, mirror or periodic+mirror DomainManager; data = particle states with a '
-        'ghost-tagged tail (non-periodic) x (t, dt) x 1-3 consecutive steps. '
+        'ghost-tagged tail (non-periodic; the second array may be empty or '
+        'all ghosts) x (t, dt per step) x 1-3 consecutive steps x post-stage '
+        'callback installed / absent / replaced between steps. '
         'Non-trivial = a step in which >=2 stage calls ran, particles moved '
         'between two acceleration evaluations or a ghost existed; distinct '
         'by (program, data) hash.')
@@ -32,12 +39,20 @@ ASSUMPTIONS = [
     'listed as skipped',
     'bitwise comparison for arithmetic-only steppers, 1e-9 relative '
     'otherwise',
-    'neighbours from LinkedListNNPS(sort_gids=True) on both sides; serial',
+    'neighbours from LinkedListNNPS(sort_gids=True) on both sides; serial '
+    'and (programs marked omp) OpenMP builds with 4 or 16 threads',
 ]
 ESSENTIAL_LABELS = {'all': ['shipped', 'custom', 'periodic', 'mirror',
                             'static_ghosts',
                             'py_stage', 'two_sets', 'multi_step',
-                            'different_steppers']}
+                            'different_steppers', 'openmp', 'large_arrays',
+                            'stepper_args', 'flat_sets', 'three_sets',
+                            'array_without_stepper', 'control_flow',
+                            'keyword_calls', 'inherited_timestep',
+                            'py_hook_without_stage', 'empty_array',
+                            'ghost_only_array', 'varying_dt',
+                            'callback_none', 'callback_swap',
+                            'between_step_calls']}
 SHARD_TIMEOUT = {'quick': 1700, 'thorough': 8 * 3600}
 
 BASE = ['x', 'y', 'z', 'h', 'u', 'v', 'w', 'rho', 'm', 'au', 'av', 'aw',
@@ -50,13 +65,41 @@ CUSTOM = {
     'I5': (['initialize', 'stage1', 'stage2', 'stage3', 'stage4', 'stage5'],
            2),
     'I2Reversed': (['initialize', 'stage1', 'stage2'], 1),
+    'I3Keywords': (['initialize', 'stage1', 'stage2', 'stage3'], 3),
+    'I4Loop': (['initialize', 'stage1', 'stage2'], 1),
+    'I1Sub': (['stage1'], 1),
 }
 CUSTOM_STEPPERS = {'SA': ['initialize', 'stage1', 'stage2', 'stage3',
                           'stage4', 'stage5'],
                    'SB': ['stage1', 'stage2'], 'SC': ['initialize',
                                                       'stage1'],
                    'SD': ['stage1'],
-                   'SE': ['initialize', 'stage1', 'stage2']}
+                   'SE': ['initialize', 'stage1', 'stage2'],
+                   'SF': ['initialize', 'stage1']}
+# programs added by the coverage audit: (integrator, stepper a0, stepper a1,
+# domain, extras).  Every quick run has all of them.
+AUDIT_CORE = [
+    # two instances of one stepper class with different attribute values
+    ('I1', 'SB', 'SB', False,
+     dict(stepper_args={'a0': {'fac': 0.75}, 'a1': {'fac': 0.25}})),
+    ('I4Loop', 'SF', 'SF', True,
+     dict(stepper_args={'a0': {'a': 0.5, 'b': 3.0}, 'a1': {'a': 0.125}})),
+    # py_stage2 hook without a stage2 method; control flow in one_timestep
+    ('I4Loop', 'SF', 'SB', False, dict(flat_sets=True)),
+    ('I4Loop', 'SA', 'SB', 'mirror', {}),
+    # three equation sets, keyword calls, docstring
+    ('I3Keywords', 'SA', 'SF', False, {}),
+    ('I3Keywords', 'SA', 'SB', True, dict(flat_sets=True)),
+    # inherited one_timestep
+    ('I1Sub', 'SA', 'SB', False, dict(flat_sets=True)),
+    # an array without a stepper
+    ('I3TwoSets', 'SA', None, False, {}),
+    # OpenMP builds (stage loops are prange loops), large arrays
+    ('I2NoDomain', 'SA', 'SB', False, dict(omp=4)),
+    ('I5', 'SA', 'SB', False, dict(omp=4)),
+    ('I3Keywords', 'SA', 'SF', False, dict(omp=16)),
+    ('I1', 'SD', 'SA', False, dict(omp=4)),
+]
 
 
 def shipped_catalog():
@@ -135,6 +178,19 @@ def programs(seedv, n, tier):
                                                 else ()):
             cust.append(dict(kind='custom', integrator=ic, steppers=st_,
                              nsets=CUSTOM[ic][1], periodic=per))
+    audit = []
+    for ic, s0, s1, per, extra in AUDIT_CORE:
+        st_ = {'a0': s0}
+        if s1:
+            st_['a1'] = s1
+        p = dict(kind='custom', integrator=ic, steppers=st_,
+                 nsets=CUSTOM[ic][1], periodic=per)
+        p.update(extra)
+        audit.append(p)
+    # shipped programs under OpenMP (thorough tier: every fourth)
+    for i, p in enumerate(progs):
+        if i % 4 == 2 and not p['periodic']:
+            p['omp'] = 4
     allp = []
     # interleave custom and shipped
     for i in range(max(len(progs), len(cust))):
@@ -165,11 +221,31 @@ def programs(seedv, n, tier):
                         p['periodic'] == per:
                     core.append(p)
         rest = [p for p in allp if key(p) not in set(key(c) for c in core)]
-        k = max(0, n - len(core))
+        core = core + audit
+        # window: NSHIP shipped programs, one per integrator class, the
+        # classes and their stepper pairings rotating with the seed (two
+        # consecutive seeds visit every shipped integrator), plus user-defined
+        # programs from the rest of the list
+        NSHIP = 8
+        by_int = {}
+        for p in progs:
+            by_int.setdefault(p['integrator'], []).append(p)
+        ikeys = sorted(by_int)
+        rot = []
+        for j in range(min(NSHIP, len(ikeys))):
+            lst = by_int[ikeys[(seedv * NSHIP + j) % len(ikeys)]]
+            rot.append(lst[(seedv * 7 + j) % len(lst)])
+        rest = [p for p in rest if p['kind'] == 'custom']
+        k = max(0, n - len(core) - len(rot))
         start = (seedv * k) % len(rest)
-        rot = rest[start:] + rest[:start]
-        return core + rot[:k]
-    return allp
+        rot += (rest[start:] + rest[:start])[:k]
+        # one shipped program of the window runs under OpenMP
+        for p in rot:
+            if p['kind'] == 'shipped' and not p['periodic']:
+                p['omp'] = 4
+                break
+        return core + rot
+    return allp + audit
 
 
 # ------------------------------------------------------------------ data
@@ -179,13 +255,32 @@ def data_strategy(draw, prog, props):
     arrays = []
     per = prog['periodic']
     L = 2.0
+    # OpenMP programs: some data sets are large enough for every thread to
+    # get particles (chunks of 64), spread out so that the neighbour lists
+    # of the Python reference stay short
+    big = bool(prog.get('omp')) and not per and draw(st.booleans())
+    if big:
+        L = 12.0
+    # the second array may be empty or consist of ghosts only (a stage steps
+    # nothing there); not with the stepper whose hook extracts particle 0
+    kinds = ['normal'] * 4
+    if prog['steppers'].get('a1') != 'SD' and not big:
+        kinds += ['empty'] + ([] if per else ['ghost_only'])
+    kind1 = draw(st.sampled_from(kinds))
     for i, nm in enumerate(['a0', 'a1']):
         n = draw(st.integers(6, 12)) if i == 0 else draw(st.integers(4, 8))
         nghost = 0 if per else draw(st.integers(0, 2))
+        if big and i == 0:
+            n = draw(st.integers(150, 230))
+            nghost = draw(st.integers(0, 40))
+        if i == 1 and kind1 == 'empty':
+            n = nghost = 0
+        elif i == 1 and kind1 == 'ghost_only':
+            nghost = n
         pr = {}
         for p in sorted(props[nm]):
             if p in ('x', 'y'):
-                pr[p] = dict(data=[draw(st.integers(1, 63)) / 32.0
+                pr[p] = dict(data=[draw(st.integers(1, 63)) / 64.0 * L
                                    for _ in range(n)])
             elif p == 'z':
                 # three-dimensional programs: shipped steppers move all three
@@ -209,10 +304,20 @@ def data_strategy(draw, prog, props):
                 pr[p] = dict(data=[draw(st.integers(-16, 16)) / 16.0
                                    for _ in range(n)])
         arrays.append(dict(name=nm, n=n, nghost=nghost, props=pr))
-    return dict(arrays=arrays, t=draw(st.integers(0, 16)) / 8.0,
-                dt=draw(st.sampled_from([1 / 64.0, 1 / 32.0, 3 / 64.0,
-                                         1 / 16.0])),
-                nsteps=draw(st.integers(1, 3)))
+    DT = st.sampled_from([1 / 64.0, 1 / 32.0, 3 / 64.0, 1 / 16.0])
+    nsteps = draw(st.integers(1, 3))
+    data = dict(arrays=arrays, t=draw(st.integers(0, 16)) / 8.0,
+                dt=draw(DT), nsteps=nsteps)
+    if nsteps > 1 and draw(st.booleans()):
+        # the step size changes from one step to the next
+        data['dts'] = [data['dt']] + [draw(DT) for _ in range(nsteps - 1)]
+    # post-stage callback: installed / never installed / replaced by another
+    # one (or removed) between two steps of the same integrator object
+    data['callback'] = draw(st.sampled_from(['set', 'set', 'none', 'swap']))
+    # calls between steps that must not change what the next step does
+    data['between'] = draw(st.sampled_from([None, None, 'fixed_h',
+                                            'time_step']))
+    return data
 
 
 # ----------------------------------------------------------- construction
@@ -225,7 +330,8 @@ def make_objects(prog):
     from checks import c04_defs as D
     if prog['kind'] == 'custom':
         icls = getattr(D, prog['integrator'])
-        steppers = dict((a, getattr(D, s)()) for a, s in
+        args = prog.get('stepper_args') or {}
+        steppers = dict((a, getattr(D, s)(**args.get(a, {}))) for a, s in
                         prog['steppers'].items())
     else:
         icls = C.integrator_classes()[prog['integrator']]
@@ -241,17 +347,25 @@ def make_equations(prog):
     from checks import c04_defs as D
     dests = sorted(prog['steppers'])
     srcs = ['a0', 'a1']
-    g0 = [Group(equations=[D.AccFromPos(d, srcs, c=1.0 + 0.5 * i)
-                           for i, d in enumerate(dests)] +
-                [D.NbrTracer(d, srcs, k=i + 1)
-                 for i, d in enumerate(dests)])]
+
+    def wrap(eqs):
+        # a set is a list of groups or, as in the documentation's example
+        # of MultiStageEquations, a plain list of equations
+        return eqs if prog.get('flat_sets') else [Group(equations=eqs)]
+    g0 = wrap([D.AccFromPos(d, srcs, c=1.0 + 0.5 * i)
+               for i, d in enumerate(dests)] +
+              [D.NbrTracer(d, srcs, k=i + 1) for i, d in enumerate(dests)])
     if prog['nsets'] == 1:
         return g0
-    g1 = [Group(equations=[D.AccSecond(d, srcs, c=0.5 + i)
-                           for i, d in enumerate(dests)] +
-                [D.NbrTracer(d, srcs, k=i + 4)
-                 for i, d in enumerate(dests)])]
+    g1 = wrap([D.AccSecond(d, srcs, c=0.5 + i)
+               for i, d in enumerate(dests)] +
+              [D.NbrTracer(d, srcs, k=i + 4) for i, d in enumerate(dests)])
     sets = [g0, g1]
+    if prog['kind'] == 'custom' and prog['nsets'] >= 3:
+        sets.append(wrap([D.AccThird(d, srcs, c=0.75 + i)
+                          for i, d in enumerate(dests)] +
+                         [D.NbrTracer(d, srcs, k=i + 7)
+                          for i, d in enumerate(dests)]))
     while len(sets) < prog['nsets']:
         sets.append(g0)
     return MultiStageEquations(sets)
@@ -310,9 +424,12 @@ def setup_program(prog, first):
         ae.set_nnps(c.nnps)
     c.integ.set_nnps(c.nnps)
     c.log = []
-    c.integ.set_post_stage_callback(
-        lambda t, dt, stage: c.log.append((float(t), float(dt),
-                                           int(stage))))
+    c.log2 = []
+    c.callback = lambda t, dt, stage: c.log.append((float(t), float(dt),
+                                                    int(stage)))
+    c.callback2 = lambda t, dt, stage: c.log2.append((float(t), float(dt),
+                                                      int(stage)))
+    c.integ.set_post_stage_callback(c.callback)
     r = Side()
     r.arrays = jit.make_arrays(first['arrays'])
     icls, r.steppers = make_objects(prog)
@@ -372,15 +489,62 @@ def run_data(prog, sides, data, bitwise):
         labels.append('different_steppers')
     if data['nsteps'] >= 2:
         labels.append('multi_step')
+    if prog.get('omp'):
+        labels.append('openmp')
+    if any(a['n'] >= 150 for a in data['arrays']):
+        labels.append('large_arrays')
+    if prog.get('stepper_args'):
+        labels.append('stepper_args')
+    if prog.get('flat_sets'):
+        labels.append('flat_sets')
+    if prog['nsets'] >= 3:
+        labels.append('three_sets')
+    if len(prog['steppers']) < 2:
+        labels.append('array_without_stepper')
+    if prog['integrator'] in ('I4Loop',):
+        labels.append('control_flow')
+    if prog['integrator'] in ('I3Keywords',):
+        labels.append('keyword_calls')
+    if prog['integrator'] in ('I1Sub',):
+        labels.append('inherited_timestep')
+    if 'SF' in prog['steppers'].values() and \
+            'stage2' in CUSTOM.get(prog['integrator'], ([],))[0]:
+        labels.append('py_hook_without_stage')
+    a1 = data['arrays'][1]
+    if a1['n'] == 0:
+        labels.append('empty_array')
+    elif a1['nghost'] == a1['n']:
+        labels.append('ghost_only_array')
+    dts = data.get('dts') or [data['dt']] * data['nsteps']
+    if len(set(dts)) > 1:
+        labels.append('varying_dt')
+    cbmode = data.get('callback', 'set')
+    if cbmode != 'set':
+        labels.append('callback_' + cbmode)
+    if data.get('between'):
+        labels.append('between_step_calls')
     for side in (c, r):
         jit.load_data(side.arrays, data['arrays'])
         side.nnps.update_domain()
         side.nnps.update()
     del c.log[:]
+    del c.log2[:]
     r.ri.log = []
-    t, dt = data['t'], data['dt']
+    t = data['t']
     moved = False
+    expect = []
+    expect2 = []
     for k in range(data['nsteps']):
+        dt = dts[k]
+        # which callback object is installed for this step
+        if cbmode == 'none':
+            cb = None
+        elif cbmode == 'swap':
+            cb = [c.callback, c.callback2, None][k % 3]
+        else:
+            cb = c.callback
+        c.integ.set_post_stage_callback(cb)
+        nlog = len(r.ri.log)
         del D.PYLOG[:]
         try:
             r.ri.step(t, dt)
@@ -400,6 +564,10 @@ def run_data(prog, sides, data, bitwise):
             fails.append(Failure('Integrator', 'py_stage_log',
                                  'step %d: reference %r, compiled %r' % (
                                      k, rlog[:6], clog[:6]), kl))
+        if cb is c.callback:
+            expect += r.ri.log[nlog:]
+        elif cb is c.callback2:
+            expect2 += r.ri.log[nlog:]
         diffs = jit.compare_arrays(r.arrays, c.arrays, bitwise=bitwise,
                                    rtol=1e-9, skip=('pid',))
         if diffs:
@@ -410,10 +578,23 @@ def run_data(prog, sides, data, bitwise):
                 'compiled %s (%s)' % ((k,) + d), kl))
             break
         t = t + dt
-    if c.log != r.ri.log:
+        if data.get('between') and k < data['nsteps'] - 1:
+            # bookkeeping calls of the solver between two steps: they read
+            # the particles and must leave the next step as it is (their own
+            # results belong to C19)
+            try:
+                if data['between'] == 'fixed_h':
+                    c.integ.set_fixed_h(k % 2 == 0)
+                else:
+                    c.integ.compute_time_step(dt, 0.25)
+            except Exception:
+                pass
+    c.integ.set_post_stage_callback(c.callback)
+    if c.log != expect or c.log2 != expect2:
         fails.append(Failure('Integrator', 'post_stage_callback',
-                             'reference %r, compiled %r' % (r.ri.log[:8],
-                                                            c.log[:8]), kl))
+                             'mode %s: reference %r / %r, compiled %r / %r'
+                             % (cbmode, expect[:8], expect2[:8], c.log[:8],
+                                c.log2[:8]), kl))
     nstages = len(r.ri.log) / max(1, data['nsteps'])
     nt = nstages >= 2 or bool(prog['periodic']) or \
         any(a['nghost'] for a in data['arrays'])
@@ -423,18 +604,20 @@ def run_data(prog, sides, data, bitwise):
 # ------------------------------------------------------------ entry points
 def plan(ctx):
     if ctx['tier'] == 'quick':
-        progs = programs(ctx['seed'], 16, 'quick')
+        progs = programs(ctx['seed'], 34, 'quick')
         nd = 8
     else:
         progs = programs(ctx['seed'], 0, 'thorough')
         nd = 40
     return [dict(name='prog-%03d-%s' % (i, p['integrator'].split('.')[-1]),
-                 prog=p, ndata=nd) for i, p in enumerate(progs)]
+                 prog=p, ndata=nd, omp=p.get('omp', 0))
+            for i, p in enumerate(progs)]
 
 
 def run_shard(spec, ctx):
     stats = Stats()
     prog = spec['prog']
+    set_openmp(prog)
     stats.extra['jit_compiles'] = 0
     props = needed_props(prog)
     holder = {}
@@ -488,8 +671,18 @@ def run_shard(spec, ctx):
     return stats.result()
 
 
+def set_openmp(prog):
+    if prog.get('omp'):
+        # stage loops become prange loops; a stepper method writes its own
+        # particle only, so the result must not depend on the schedule
+        # (the driver sets OMP_NUM_THREADS from the shard's `omp` entry)
+        from compyle.config import get_config
+        get_config().use_openmp = True
+
+
 def run_case(case, component, ctx):
     prog, data = case['program'], case['data']
+    set_openmp(prog)
     try:
         sides = setup_program(prog, data)
     except SystemExit:
